@@ -73,6 +73,13 @@ int Var::div(Var &var_d, Var &var_s)
   {
     if (var_s.value_int == 0) { return -1; }
 
+    // INT64_MIN / -1 overflows (and traps on x86): it wraps like negation.
+    if (var_s.value_int == -1)
+    {
+      value_int = (int64_t)(0 - (uint64_t)var_d.value_int);
+      return 0;
+    }
+
     value_int = var_d.value_int / var_s.value_int;
   }
     else
@@ -90,6 +97,13 @@ int Var::mod(Var &var_d, Var &var_s)
   var_s.to_int();
 
   if (var_s.value_int == 0) { return -1; }
+
+  // INT64_MIN % -1 traps on x86 although the remainder is 0.
+  if (var_s.value_int == -1)
+  {
+    value_int = 0;
+    return 0;
+  }
 
   value_int = var_d.value_int % var_s.value_int;
 
